@@ -507,19 +507,22 @@ def loop (E : Env ω ρ ξ α) (cb : Option (Callback ω)) : Nat → Int → Drv
     | (d', .ok) => loop E cb n (i + 1) d'
     | r => r
 
-/-- `Optimizer.solve(callback)` (after the repair of the `maxiter = 0` counter defect:
-    `if self.maxiter > 0: self.itnum += 1`) -/
+/-- `Optimizer.solve(callback)` (after the repairs `4b50827`: no increment when nothing was
+    iterated, and `1b5db51`: the iteration count of the call is a local `maxiter = self.maxiter`
+    taken before the loop and used both for the `range` and for the final test; with a plain
+    `Callback`, which assigns no attribute, that local equals the attribute throughout — callbacks
+    that do assign it: `solveX`) -/
 def solve (E : Env ω ρ ξ α) (cb : Option (Callback ω)) (d : Drv ω ρ L) : Drv ω ρ L × Outcome :=
-  -- self.timer.start()
+  -- self.timer.start(); maxiter = self.maxiter
   let d0 := d.timerStart
-  -- for self.itnum in range(self.itnum, self.itnum + self.maxiter):
+  -- for self.itnum in range(self.itnum, self.itnum + maxiter):
   match loop E cb d0.maxiter.toNat d0.itnum d0 with
   | (d1, .ok) =>
     -- self.timer.stop()
     match d1.timerStop with
     | (d2, false) => (d2, .key)
     | (d2, true) =>
-      -- if self.maxiter > 0: self.itnum += 1
+      -- if maxiter > 0: self.itnum += 1
       let d3 := if d2.maxiter > 0 then { d2 with itnum := d2.itnum + 1 } else d2
       -- self.itstat_object.end() changes no state; return self.minimizer()
       (d3, .ok)
@@ -581,10 +584,10 @@ def loopX (E : Env ω ρ ξ α) (cb : Option (CallbackX ω)) : Nat → Int → D
     | r => r
 
 /-- `Optimizer.solve(callback)` with an attribute-assigning callback.  The `range` of the loop is
-    evaluated once, before the first iteration.  `late = true`: the tree as it is — the final
+    evaluated once, before the first iteration.  `late = true`: the tree before commit `1b5db51` — the final
     `if self.maxiter > 0: self.itnum += 1` reads the attribute *after* the loop (a callback that
     sets it to a non-positive value leaves the counter one short: finding
-    `callback-maxiter-counter`); `late = false`: the repaired behaviour — the decision uses the
+    `callback-maxiter-counter`); `late = false`: the tree since `1b5db51` — the decision uses the
     value `maxiter` had when the call started. -/
 def solveX (late : Bool) (E : Env ω ρ ξ α) (cb : Option (CallbackX ω)) (d : Drv ω ρ L) :
     Drv ω ρ L × Outcome :=
@@ -644,14 +647,15 @@ structure StrRow (L : Type) where
   current : Option Nat
 deriving Repr, DecidableEq
 
-/-- the lines of `Timer.__str__` at clock value `t`, labels in sorted order (documented behaviour;
-    the tree as it is raises `TypeError` whenever some timer is running: finding
-    `timer-str-running`) -/
+/-- the lines of `Timer.__str__` at clock value `t`, labels in sorted order (documented behaviour,
+    the tree since commit `2b46a8f`; before it `TypeError` was raised whenever some timer was
+    running: finding `timer-str-running`) -/
 def Timer.strRows (lt : L → L → Bool) (T : Timer L) (t : Nat) : List (StrRow L) :=
   (sortLabels lt T.store.keys).filterMap (fun l =>
     (T.store.get l).map (fun e => ⟨l, e.td, e.t0.map (fun s => t - s)⟩))
 
-/-- the tree as it is: `TypeError` (`none`) iff some timer is running -/
+/-- the tree before `2b46a8f`: `TypeError` (`none`) iff some timer is running (kept only to
+    classify the finding) -/
 def Timer.strRowsPinned (lt : L → L → Bool) (T : Timer L) (t : Nat) : Option (List (StrRow L)) :=
   if T.store.any (fun p => p.2.t0.isSome) then none else some (T.strRows lt t)
 
